@@ -88,10 +88,23 @@ thread_local! {
 pub fn kink_count() -> u64 {
     KINKS.with(|k| k.get())
 }
+static KINK_REL_BITS: std::sync::atomic::AtomicU64 = std::sync::atomic::AtomicU64::new(0);
+/// relative width of the rounding-noise band around a relu kink (default 1e-9; the single-precision build widens it)
+pub fn set_kink_rel(x: f64) {
+    KINK_REL_BITS.store(x.to_bits(), std::sync::atomic::Ordering::Relaxed);
+}
+fn kink_rel() -> f64 {
+    let b = KINK_REL_BITS.load(std::sync::atomic::Ordering::Relaxed);
+    if b == 0 {
+        1e-9
+    } else {
+        f64::from_bits(b)
+    }
+}
 /// max(0, x); derivative 1 for x > 0 and 0 otherwise (corgi's documented convention at 0)
 pub fn relu(a: &T) -> T {
     map(a, |x| {
-        if x.vm > 0.0 && x.v.abs() <= 1e-9 * x.vm {
+        if x.vm > 0.0 && x.v.abs() <= kink_rel() * x.vm {
             KINKS.with(|k| k.set(k.get() + 1));
         }
         if x.v > 0.0 {
